@@ -313,6 +313,11 @@ type c14Scenario struct {
 	Seeded      bool   `json:"seeded,omitempty"`
 	SeedRetries int    `json:"seed_retries,omitempty"`
 	Only        string `json:"only,omitempty"` // register only this subscriber of the set
+	// storage-error runs (deviation bound 1): reads of the store are numbered steps too, and step ErrAt fails with a
+	// database error instead of being a stop point
+	Reads    bool   `json:"reads,omitempty"`
+	ErrAt    int    `json:"err_at,omitempty"`
+	ErrClass string `json:"err_class,omitempty"` // where|what of the failing step, from the dry run (signature only)
 }
 
 // c14SubsOf lists the subscribers that a scenario registers.
@@ -394,8 +399,8 @@ func c14ScriptResult(script string, n int) string {
 	switch script {
 	case "", "ok":
 		return "ok"
-	case "incomplete2":
-		if n < 2 {
+	case "incomplete1", "incomplete2":
+		if n < int(script[len(script)-1]-'0') {
 			return "incomplete"
 		}
 		return "ok"
@@ -688,6 +693,8 @@ type c14Result struct {
 	Runaway   bool
 	PostMortem int
 	StopLoop  int // retry loop that hit the stop (-1 = main goroutine)
+	ErrFired  bool  // storage-error runs: the planned error was applied
+	StepLoops []int // life 0: the retry loop that performed step N (-1 = main goroutine)
 }
 
 func (rn *c14Run) pending() map[string]map[string]int {
@@ -740,11 +747,15 @@ func c14Execute(t testing.TB, sim *c14Sim, sc c14Scenario, txs []Transaction, pa
 	rn.open(path)
 	lap(0)
 	res := &c14Result{}
-	mode := fault.None
+	mode, at := fault.None, sc.StopAt
 	if sc.StopAt > 0 {
 		mode = fault.Stop
 	}
-	rn.kv.Arm(fault.Plan{Mode: mode, At: sc.StopAt})
+	if sc.ErrAt > 0 {
+		mode, at = fault.Error, sc.ErrAt
+	}
+	rn.kv.NumberReads(sc.Reads)
+	rn.kv.Arm(fault.Plan{Mode: mode, At: at})
 	drain := func() {
 		for sim.nParked() > 0 && !rn.kv.Dead() {
 			sim.releaseOldest()
@@ -787,9 +798,12 @@ func c14Execute(t testing.TB, sim *c14Sim, sc c14Scenario, txs []Transaction, pa
 	sim.settle()
 	lap(1)
 	res.Trace = rn.kv.Trace()
-	fired, at := rn.kv.Fired()
+	fired, firedAt := rn.kv.Fired()
 	res.Stopped = fired || stopped != nil || rn.kv.Dead()
-	res.StopStep = at
+	res.StopStep = firedAt
+	if sc.ErrAt > 0 {
+		res.Stopped, res.ErrFired = false, fired
+	}
 	if sc.StopAt > 0 && !fired {
 		res.Stopped = false // the run ended before the planned step
 	}
@@ -860,6 +874,7 @@ func c14Execute(t testing.TB, sim *c14Sim, sc c14Scenario, txs []Transaction, pa
 	rn.closeInstance()
 	lap(5)
 	res.Calls, res.OpStart, res.OpErr, res.Runaway, res.PostMortem = rn.calls, rn.opStart, rn.opErr, rn.runaway, rn.postMortem
+	res.StepLoops = rn.stepLoop
 	res.StopLoop = -1
 	if res.Stopped && res.StopStep.N >= 1 && res.StopStep.N <= len(rn.stepLoop) {
 		res.StopLoop = rn.stepLoop[res.StopStep.N-1]
@@ -920,7 +935,25 @@ func c14Judge(sc c14Scenario, res *c14Result) []c14Finding {
 	if res.Stopped {
 		stopN = res.StopStep.N
 	}
-	done := func(stepN int) bool { return stepN > 0 && stepN < stopN } // "stop before step N": steps below N took effect
+	// a transaction in which the injected storage error fired did not commit, whatever steps of it were numbered
+	errTx := -1
+	if sc.ErrAt > 0 && res.ErrFired {
+		for _, st := range res.Trace {
+			if st.N == sc.ErrAt && st.Kind != fault.ReadOp {
+				errTx = st.Tx
+			}
+		}
+	}
+	done := func(stepN int) bool { // "stop before step N": steps below N took effect
+		if stepN > 0 && errTx >= 0 {
+			for _, st := range res.Trace {
+				if st.N == stepN && st.Tx == errTx {
+					return false
+				}
+			}
+		}
+		return stepN > 0 && stepN < stopN
+	}
 	// admissions
 	type akey struct{ tx, typ string }
 	admitted := map[akey]int{}
@@ -1057,6 +1090,22 @@ func c14Judge(sc c14Scenario, res *c14Result) []c14Finding {
 				// more than the budget) nor a spent budget: the notifier stopped trying with budget left
 				add("retries-stopped-with-budget-left", sub, "%s event of %s: no retry is scheduled any more after %d persisted tries although the subscriber neither completed nor failed fatally and the budget is %d", k.typ, k.tx, res.PendingZ[sub][k.tx], c14Budget)
 			}
+			// runs without a stop reach quiescence in the FIRST process too (every retry loop has ended before the clean stop): there
+			// the event must already be completed or visible as failed with its budget spent — "will be picked up at the next
+			// restart" is not one of the states the statement allows
+			if !res.Stopped && !sc.Seeded {
+				completed0 := false
+				for _, c := range cs {
+					completed0 = completed0 || (c.Life == 0 && c.Result == "ok")
+				}
+				r0, in0 := res.Pending1[sub][k.tx]
+				switch {
+				case !in0 && !completed0:
+					add("stuck-in-process", sub, "%s event of %s: at quiescence of the admitting process it was never completed and is not stored", k.typ, k.tx)
+				case in0 && !completed0 && (!res.Failed1[sub][k.tx] || r0 < c14Budget):
+					add("stuck-in-process", sub, "%s event of %s: at quiescence of the admitting process no retry is scheduled any more after %d persisted tries (budget %d), listed as failed: %v", k.typ, k.tx, r0, c14Budget, res.Failed1[sub][k.tx])
+				}
+			}
 			// an event with at least the threshold number of tries is visible as failed, also right after the restart
 			if r1, ok := res.Pending1[sub][k.tx]; ok && r1 >= c14Threshold && res.Failed1 != nil && !res.Failed1[sub][k.tx] {
 				add("not-visible-as-failed", sub, "%s event of %s has %d persisted tries after the restart and GetFailedEvents does not list it (threshold %d)", k.typ, k.tx, r1, c14Threshold)
@@ -1174,6 +1223,9 @@ func c14Behaviours(set string, thorough, long bool) []c14Behaviour {
 
 // c14StopClass names the place of the stop in the words of the statement.
 func c14StopClass(res *c14Result, sc c14Scenario) string {
+	if sc.ErrAt > 0 {
+		return "storage-error|" + sc.ErrClass
+	}
 	if sc.Seeded {
 		return "restart-from-seeded-jobs"
 	}
@@ -1286,7 +1338,7 @@ func TestVerifC14(t *testing.T) {
 	var runs, fired int64
 	sampled := 0
 	shard, nsh := r.Shard()
-	var skipped, seeded int64
+	var skipped, seeded, errRuns int64
 	// try runs one case; machinery trouble (a run that does not settle, a store that does not close, …) is retried on a
 	// fresh store and, if it persists, makes the case a skipped one: not exhaustive, never a failure of the check
 	try := func(sc c14Scenario, txs []Transaction, pays [][]byte, names map[hash.SHA256Hash]string) *c14Result {
@@ -1444,8 +1496,88 @@ func TestVerifC14(t *testing.T) {
 			}
 		}
 	}
+	// storage errors in the delivery bookkeeping, one per run: every read of a job shelf and every step of every job-shelf
+	// transaction (write-back of the retry count, completion delete), in the first delivery and in retry attempts
+	{
+		ehists := [][]c14Op{{{Kind: "pub", Ref: 0}}, {{Kind: "priv", Ref: 0}, {Kind: "wp", Ref: 0}}, {{Kind: "pub", Ref: 0}, {Kind: "pub", Ref: 1}}}
+		ei := 0
+		for _, ops := range ehists {
+			txs, pays, names := c14MakeTxs(ops)
+			for _, set := range []string{"product", "generic"} {
+				behs := []c14Behaviour{{"", "ok"}}
+				for _, sp := range c14Subs(set) {
+					for _, sc := range []string{"fail1", "incomplete1", "fail2"} {
+						behs = append(behs, c14Behaviour{sp.name, sc})
+					}
+				}
+				for _, b := range behs {
+					ei++
+					if !r.Mine(ei) || r.Expired() {
+						continue
+					}
+					sc := c14Scenario{Ops: ops, Set: set, Faulty: b.faulty, Script: b.script, Drain: "each", Order: "asc", Reads: true}
+					dry := try(sc, txs, pays, names)
+					if dry == nil {
+						continue
+					}
+					runs++
+					r.Eval("")
+					c14Report(r, sc, dry)
+					labels := c14Labels(dry)
+					jobTx := map[int]string{} // job-shelf transactions of the dry run: tx -> write-back | completion-marking
+					for _, st := range dry.Trace {
+						if st.Kind == fault.Begin && strings.HasSuffix(st.Shelf, "_jobs") {
+							jobTx[st.Tx] = "write-back"
+						}
+						if st.Kind == fault.Delete && jobTx[st.Tx] != "" {
+							jobTx[st.Tx] = "completion-marking"
+						}
+					}
+					for _, st := range dry.Trace {
+						what := ""
+						switch {
+						case st.Kind == fault.ReadOp && strings.HasSuffix(st.Shelf, "_jobs"):
+							what = "read"
+						case st.Kind != fault.ReadOp && jobTx[st.Tx] != "":
+							what = jobTx[st.Tx] + "-" + st.Kind
+						}
+						if what == "" || !fault.Applicable(st.Kind, fault.Error) {
+							continue
+						}
+						where := "first-delivery"
+						if st.N-1 < len(dry.StepLoops) && dry.StepLoops[st.N-1] >= 0 {
+							where = "retry-attempt"
+						}
+						sce := sc
+						sce.ErrAt, sce.ErrClass = st.N, where+"|"+what
+						var res *c14Result
+						for attempt := 0; attempt < 3 && res == nil; attempt++ {
+							x := try(sce, txs, pays, names)
+							if x == nil {
+								break
+							}
+							if l := c14Labels(x); x.ErrFired && len(l) >= st.N && c14SamePrefix(l[:st.N], labels) {
+								res = x
+							}
+						}
+						if res == nil {
+							r.NotExhaustive("some storage-error cases were not reproducible (skipped)")
+							skipped++
+							continue
+						}
+						runs++
+						errRuns++
+						r.Eval(sce.key() + "|err" + strconv.Itoa(st.N))
+						r.Outcome(c14StopClass(res, sce))
+						c14Report(r, sce, res)
+					}
+				}
+			}
+		}
+	}
 	r.AddExtra("cases_skipped", skipped)
 	r.AddExtra("restarts_from_seeded_jobs", seeded)
+	r.AddExtra("storage_error_runs", errRuns)
 	if os.Getenv("C14_TIMING") != "" {
 		fmt.Println("TIMING open0, life0, close0, open1, run1, close1:", c14T[:6])
 	}
@@ -1526,6 +1658,10 @@ func c14Report(r *ev.Run, sc c14Scenario, res *c14Result) {
 			sig = "C14|" + f.clause + "|" + f.sub + "|" + script + "|" + c14StopClass(res, sc)
 			if c14HasSame(sc.Ops) {
 				sig += "|equal-payload-bytes"
+			}
+			if sc.ErrAt > 0 {
+				// one storage error (deviation bound 1): the class of the failing step replaces subscriber and stop class
+				sig = "C14|" + f.clause + "|after-storage-error|" + sc.ErrClass + "|" + script
 			}
 			if strings.HasPrefix(f.clause, "retried-after-fatal") {
 				sig = "C14|" + f.clause // one defect, one signature: the place of the stop does not matter
